@@ -3,7 +3,7 @@
 reverted afterwards) and records which check caught it."""
 import subprocess, json, os, sys, glob
 ids=sys.argv[1:] or sorted(os.path.basename(p) for p in glob.glob('/verif/seeded/C*'))
-extra={'C01-i':['C08'],'C05-a':['C11'],'C01-b':['C16'],'C03-a':['C04','C07'],'C18-a':['C03'],'C18-b':['C03'],'C17-b':['C05'],'C01-c':['C15','C18'],'C01-e':['C08'],'C02-d':['C18','C15'],'C04-c':['C18','C15'],'C05-e':['C18','C15'],'C06-d':['C18'],'C14-e':['C18','C15'],'C03-c':['C18','C15'],'C20-c':['C05'],'C08-d':['C02','C12'],'C09-e':['C02','C12'],'C17-c':['C15'],'C17-d':['C08','C01'],'C15-e':['C17'],'C04-d':['C09'],'C13-d':['C08'],'C10-c':['C13'],'C07-n':['C01','C05']}
+extra={'C01-i':['C08'],'C05-a':['C11'],'C01-b':['C16'],'C03-a':['C04','C07'],'C18-a':['C03'],'C18-b':['C03'],'C17-b':['C05'],'C01-c':['C15','C18'],'C01-e':['C08'],'C02-d':['C18','C15'],'C04-c':['C18','C15'],'C05-e':['C18','C15'],'C06-d':['C18'],'C14-e':['C18','C15'],'C03-c':['C18','C15'],'C20-c':['C05'],'C08-d':['C02','C12'],'C09-e':['C02','C12'],'C17-c':['C15'],'C17-d':['C08','C01'],'C15-e':['C17'],'C04-d':['C09'],'C13-d':['C08'],'C10-c':['C13'],'C07-n':['C01','C05'],'C10-p':['C01','C05'],'C10-q':['C11']}
 for sid in ids:
     d=f'/verif/seeded/{sid}'
     meta=json.load(open(f'{d}/meta.json'))
